@@ -1,7 +1,7 @@
 """Entry point of every registered check:  ./check <Cxx> [--tier quick|thorough] [--replay file]
 
-exit 0 held (KNOWN-FINDING lines allowed) / 1 refuted obligation (VIOLATION line) /
-2 undecided only / 3 checker guard failure.  See DESIGN.md 3.3.
+exit 0 held (KNOWN-FINDING lines allowed) / 1 refuted obligation (VIOLATION line; takes precedence) /
+3 checker guard failure without a violation / 2 undecided only.  See DESIGN.md 3.3.
 """
 from __future__ import annotations
 
